@@ -1,6 +1,7 @@
 """C03 — serial simulations are deterministic (spec/ckpt/Det.tla)."""
 import os
 from vlib import core
+from vlib import netckpt
 
 LEVEL = "exploration"
 TECHNIQUE = "self-composition: the same seeded assemblies are run in separate OS processes (fresh map seeds, GOMAXPROCS 1/4/16); TLC validates each observation stream against the first (Det.tla)"
@@ -39,3 +40,4 @@ def run(ck):
                       "process %d diverges from process 0 after %s records: %s vs %s" % (k, rej.get("matched"), rej.get("a"), rej.get("b")),
                       {"trace": keep, "first": rej})
     ck.note("%d assemblies x %d processes, %d records each" % (out["systems"], len(paths), out["records"]))
+    netckpt.run_c03(ck)
